@@ -4,6 +4,7 @@ import itertools
 
 from ..core import astutil as A
 from ..core import boolx
+from ..core import match as M
 from ..core.dtable import Walker
 from ..core.model import dotted
 
@@ -15,49 +16,104 @@ META = {
 DM = "pkgcore.ebuild.domain"
 
 
+def _kw(c, name):
+    return next((A.try_literal(k.value) for k in c.keywords if k.arg == name), None)
+
+
+def _inert(st):
+    """a statement without effect (what an inserted logging line / pass looks like)"""
+    return isinstance(st, ast.Pass) or (isinstance(st, ast.Expr) and isinstance(st.value, ast.Constant))
+
+
+def _method_calls_on(node, var):
+    """calls `var.<method>(...)` under node (var: current spelling of a local)"""
+    return [c for c in A.calls(node) if isinstance(c.func, ast.Attribute) and isinstance(c.func.value, ast.Name) and c.func.value.id == var]
+
+
 def run(ctx):
     P = ctx.program
     ctx.explanation = META["level"]
     gf = P.func(DM, "generate_filter")
     fr = P.func(DM, "domain.filter_repo")
     # ---- R1 composition ---------------------------------------------------------
-    mk = {A.unparse(t): v for t, v, _ in A.assignments(gf.node) if isinstance(v, ast.Call) and dotted(v.func) == "make_mask_filter"}
-    ctx.require(set(mk) >= {"masking", "unmasking"}, "generate_filter: masking/unmasking filters not found")
-    def kw(c, name):
-        return next((A.try_literal(k.value) for k in c.keywords if k.arg == name), None)
-    ctx.check("R1", gf, A.unparse(mk["masking"].args[0]) == gf.params()[0] and kw(mk["masking"], "negate") is True, "masking-negated", "the mask filter is built from the masks, negated (a package passes when no mask matches)")
-    ctx.check("R1", gf, A.unparse(mk["unmasking"].args[0]) == gf.params()[1] and kw(mk["unmasking"], "negate") in (False, None), "unmasking-positive", "the unmask filter is built from the unmasks, not negated")
+    # the two filters are identified by what they are built FROM (the masks / unmasks parameter), not by their local names
+    p_masks, p_unmasks = gf.params()[0], gf.params()[1]
+    p_extra = gf.node.args.vararg.arg if gf.node.args.vararg else None
+    mk = {}
+    for t, v, _ in A.assignments(gf.node):
+        if isinstance(t, ast.Name) and isinstance(v, ast.Call) and dotted(v.func) == "make_mask_filter" and v.args:
+            mk.setdefault(A.unparse(v.args[0]), (t.id, v))
+    ctx.require(p_masks in mk and p_unmasks in mk and p_extra, "generate_filter: masking/unmasking filters not found")
+    masking, mcall = mk[p_masks]
+    unmasking, ucall = mk[p_unmasks]
+    E = {"masking": masking, "unmasking": unmasking}
+    ctx.check("R1", gf, len(mcall.args) == 1 and _kw(mcall, "negate") is True, "masking-negated", "the mask filter is built from the masks, negated (a package passes when no mask matches)")
+    ctx.check("R1", gf, len(ucall.args) == 1 and _kw(ucall, "negate") in (False, None), "unmasking-positive", "the unmask filter is built from the unmasks, not negated")
     orc = [c for c in A.calls(gf.node) if dotted(c.func) == "packages.OrRestriction"]
-    ctx.check("R1", gf, len(orc) == 1 and [A.unparse(a) for a in orc[0].args] == ["masking", "unmasking"], "mask-or-unmask", "visible = not masked OR unmasked")
+    ctx.check("R1", gf, len(orc) == 1 and [A.unparse(a) for a in orc[0].args] == [masking, unmasking], "mask-or-unmask", "visible = not masked OR unmasked")
     ret = A.returns(gf.node)
-    ctx.check("R1", gf, len(ret) == 1 and isinstance(ret[0].value, ast.Call) and dotted(ret[0].value.func) == "packages.AndRestriction" and "r + extra" in A.unparse(ret[0].value), "and-extra", "mask logic AND every extra (keyword, license) filter")
-    only_mask = [n for n in A.body_walk(gf.node) if isinstance(n, ast.Assign) and A.unparse(n.value) == "(masking,)"]
-    ctx.check("R1", gf, bool(only_mask), "masks-without-unmasks", "without unmasks the mask filter alone decides")
+    conj = M.one(gf.node, f"return packages.AndRestriction(*($r + {p_extra}), ...)") or M.one(gf.node, f"return packages.AndRestriction(*$r, *{p_extra}, ...)")
+    ctx.check("R1", gf, len(ret) == 1 and conj is not None, "and-extra", "mask logic AND every extra (keyword, license) filter")
+    if conj:
+        E["r"] = conj["r"]
+    ctx.check("R1", gf, M.has(gf.node, "$r = ($masking,)", E), "masks-without-unmasks", "without unmasks the mask filter alone decides")
+    # the two sets are identified by the user-level parameter that is merged into them
+    gfcall = [c for c in A.calls(fr.node) if dotted(c.func) == "generate_filter"]
+    um = M.one(fr.node, "$masks.update(pkg_masks)")
+    uu = M.one(fr.node, "$unmasks.update(pkg_unmasks)")
+
+    def role(m, key, pos):
+        if m is not None:
+            return m[key]
+        if len(gfcall) == 1 and len(gfcall[0].args) > pos and isinstance(gfcall[0].args[pos], ast.Name):
+            return gfcall[0].args[pos].id
+        return None
+    masks, unmasks = role(um, "masks", 0), role(uu, "unmasks", 1)
     rr = A.returns(fr.node)
-    ctx.check("R1", fr, len(rr) == 1 and A.unparse(rr[0].value) == "filtered.tree(repo, filters, True)", "sentinel-true", "the repository is filtered keeping packages that match the visibility restriction")
-    # mask layering
-    gm = [v for t, v, _ in A.assignments(fr.node, "global_masks")]
-    ok = bool(gm) and A.unparse(gm[0]) == "[((), repo.pkg_masks)]"
+    fl = M.one(fr.node, "$filters = generate_filter(...)")
+    sent = len(rr) == 1 and (M.pat("return filtered.tree(repo, generate_filter(...), True)").matches(rr[0]) is not None
+                             or (fl is not None and M.pat("return filtered.tree(repo, $filters, True)").matches(rr[0], fl.env) is not None))
+    ctx.check("R1", fr, sent, "sentinel-true", "the repository is filtered keeping packages that match the visibility restriction")
+    # mask layering: the loops that fold (negations, additions) layers into each set
+    loops = [n for n in A.body_walk(fr.node) if isinstance(n, ast.For)]
+    layer = {"masks": [l for l in loops if masks and _method_calls_on(l, masks)], "unmasks": [l for l in loops if unmasks and _method_calls_on(l, unmasks)]}
+    stack = layer["masks"][0].iter if len(layer["masks"]) == 1 else None      # the layered mask stack the loop runs over
+    gm = stack.id if isinstance(stack, ast.Name) else None
+    gma = A.assignments(fr.node, gm) if gm else []
+    ok = bool(gma) and M.pat("[((), repo.pkg_masks)]").matches(gma[0][1]) is not None and gma[0][2].lineno < layer["masks"][0].lineno
     ctx.check("R1", fr, ok, "repo-masks-bottom-layer", "repository masks are the first (bottom) layer of the mask stack, so a profile's '-atom' can cancel them",
               "filter_repo no longer puts repo.pkg_masks at the bottom of the layered mask stack: a profile negation (-atom) cannot cancel a repository-level mask any more")
-    ext = [c for c in A.calls(fr.node) if A.unparse(c.func) == "global_masks.extend" and A.unparse(c.args[0]) == "self.profile._incremental_masks"]
-    ctx.check("R1", fr, len(ext) == 1, "profile-masks-after-repo", "profile mask layers follow the repository masks")
-    loops = [n for n in A.body_walk(fr.node) if isinstance(n, ast.For)]
-    for lp, coll, src in [(l, c, s) for l in loops for c, s in (("masks", "global_masks"), ("unmasks", "self.profile._incremental_unmasks")) if A.unparse(l.iter) == s]:
-        body = [A.unparse(s) for s in lp.body]
-        ctx.check("R1", fr, body == [f"{coll}.difference_update(neg)", f"{coll}.update(pos)"] and A.unparse(lp.target) == "(neg, pos)", f"layer-order:{coll}", f"each {coll} layer first removes its negations, then adds its additions", f"{coll} layer body is {body}", node=lp)
-    txt = A.unparse(fr.node)
-    i_loop = txt.find("masks.update(pos)")
-    i_user = txt.find("masks.update(pkg_masks)")
-    ctx.check("R1", fr, 0 <= i_loop < i_user, "user-masks-last", "user package.mask entries are added after the profile layers (a profile cannot cancel them)")
-    ctx.check("R1", fr, txt.find("unmasks.update(pos)") < txt.find("unmasks.update(pkg_unmasks)") and "unmasks.update(pkg_unmasks)" in txt, "user-unmasks-last", "user package.unmask entries are added last")
-    gfcall = [c for c in A.calls(fr.node) if dotted(c.func) == "generate_filter"]
-    ctx.check("R1", fr, len(gfcall) == 1 and [A.unparse(a) for a in gfcall[0].args] == ["masks", "unmasks", "*pkg_filters"], "filter-call", "generate_filter(masks, unmasks, *pkg_filters)")
+    grow = _method_calls_on(fr.node, gm) if gm else []     # every mutation of the stack; exactly one is expected: the profile layers
+    ext = [c for c in grow if c.func.attr == "extend" and len(c.args) == 1 and A.unparse(c.args[0]) == "self.profile._incremental_masks"]
+    ctx.check("R1", fr, len(ext) == 1 and len(grow) == 1 and bool(gma) and gma[0][2].lineno < ext[0].lineno < layer["masks"][0].lineno, "profile-masks-after-repo", "profile mask layers follow the repository masks")
+    for coll, var, src in (("masks", masks, None), ("unmasks", unmasks, "self.profile._incremental_unmasks")):
+        lps = layer[coll]
+        if not lps:
+            ctx.check("R1", fr, False, f"layer-order:{coll}", f"each {coll} layer first removes its negations, then adds its additions", f"filter_repo has no loop folding the profile layers into {coll}")
+            continue
+        for lp in lps:
+            body = [A.unparse(s) for s in lp.body if not _inert(s)]
+            shape = M.pat("for $neg, $pos in $_:\n    $c.difference_update($neg)\n    $c.update($pos)").matches(lp, {"c": var})
+            ok = shape is not None and len(body) == 2 and (src is None or A.unparse(lp.iter) == src)
+            ctx.check("R1", fr, ok, f"layer-order:{coll}", f"each {coll} layer first removes its negations, then adds its additions", f"{coll} layer body is {body}", node=lp)
+
+    def after_layers(m, coll):
+        return m is not None and all(m.node.lineno > l.end_lineno for l in layer[coll])
+    ctx.check("R1", fr, after_layers(um, "masks"), "user-masks-last", "user package.mask entries are added after the profile layers (a profile cannot cancel them)")
+    ctx.check("R1", fr, after_layers(uu, "unmasks"), "user-unmasks-last", "user package.unmask entries are added last")
+    ctx.check("R1", fr, len(gfcall) == 1 and masks is not None and unmasks is not None and [A.unparse(a) for a in gfcall[0].args] == [masks, unmasks, "*pkg_filters"]
+              and all(gfcall[0].lineno > m.node.lineno for m in (um, uu) if m is not None), "filter-call", "generate_filter(masks, unmasks, *pkg_filters)")
     ctx.floor("R1", 12)
 
     # ---- R2 keywords ---------------------------------------------------------------------------
     ak = P.func(DM, "domain._apply_keywords_filter")
-    # decision table: atoms = membership of the three wildcards in `allowed`, plus per-keyword classes
+    # the locals are identified by what they are read from
+    pkm = M.one(ak.node, "$pk = pkg.keywords")
+    alm = M.one(ak.node, "$allowed = data.pull_data(pkg)")
+    ctx.require(pkm is not None and alm is not None, "_apply_keywords_filter: reads of pkg.keywords / data.pull_data(pkg) not found")
+    v_pk, v_allowed = pkm["pk"], alm["allowed"]
+    ALLOWED = ("opaque", "allowed")
+    # decision table: atoms = membership of the three wildcards in the accept set, plus per-keyword classes
     rows_bad = []
     n_rows = 0
     kinds = ["stable", "testing", "negative"]  # first char none / '~' / '-'
@@ -66,13 +122,13 @@ def run(ctx):
             for starstar, star, tstar in itertools.product([False, True], repeat=3):
                 for member in itertools.product([False, True], repeat=n):
                     def oracle(e, env, w, kws=kws, member=member, starstar=starstar, star=star, tstar=tstar):
-                        t = A.unparse(e)
-                        if t == "'**' in allowed":
-                            return starstar
-                        if t == "'*' in allowed":
-                            return star
-                        if t == "'~*' in allowed":
-                            return tstar
+                        def val(x):
+                            try:
+                                return w.ev(x, env)
+                            except Exception:
+                                return None
+                        if isinstance(e, ast.Compare) and len(e.ops) == 1 and isinstance(e.ops[0], ast.In) and isinstance(e.left, ast.Constant) and e.left.value in ("**", "*", "~*") and val(e.comparators[0]) == ALLOWED:
+                            return {"**": starstar, "*": star, "~*": tstar}[e.left.value]
                         if isinstance(e, ast.Compare) and len(e.ops) == 1 and isinstance(e.left, ast.Subscript) and A.try_literal(e.left.slice) == 0:
                             v = env.get(A.unparse(e.left.value))
                             if isinstance(v, tuple) and v[0] == "child":
@@ -86,18 +142,19 @@ def run(ctx):
                                     return first == rhs
                                 if isinstance(e.ops[0], ast.NotEq):
                                     return first != rhs
-                        if isinstance(e, ast.Compare) and isinstance(e.ops[0], ast.In) and A.unparse(e.comparators[0]) == "allowed" and isinstance(e.left, ast.Name):
+                        if isinstance(e, ast.Compare) and len(e.ops) == 1 and isinstance(e.ops[0], ast.In) and isinstance(e.left, ast.Name) and val(e.comparators[0]) == ALLOWED:
                             v = env.get(e.left.id)
                             if isinstance(v, tuple) and v[0] == "child":
                                 return member[v[1]]
+                        t = A.unparse(e)
                         if t == "data.pull_data(pkg)":
-                            return ("opaque", "allowed")
+                            return ALLOWED
                         if t in ("pkg.keywords",):
                             return ("children",)
-                        if isinstance(e, ast.Call) and dotted(e.func) == "any" and isinstance(e.args[0], ast.GeneratorExp):
+                        if isinstance(e, ast.Call) and dotted(e.func) == "any" and e.args and isinstance(e.args[0], ast.GeneratorExp):
                             g = e.args[0]
                             gen = g.generators[0]
-                            if A.unparse(gen.iter) == "pkg_keywords":
+                            if val(gen.iter) == ("children",) and isinstance(gen.target, ast.Name):
                                 res = False
                                 for i in range(w.n):
                                     env2 = dict(env)
@@ -106,11 +163,11 @@ def run(ctx):
                                         res = True
                                 return res
                         return NotImplemented
-                    w = Walker(oracle, ("pkg_keywords",), n)
+                    w = Walker(oracle, (v_pk,), n)
                     # skip the profile.keywords augmentation loop: treat self.profile.keywords as empty
                     fn = ast.FunctionDef(name="f", args=ak.node.args, body=[s for s in ak.node.body if not (isinstance(s, ast.For) and "self.profile.keywords" in A.unparse(s.iter))], decorator_list=[])
                     try:
-                        res = w.run(fn, {"pkg_keywords": ("children",), "allowed": ("opaque", "allowed")})
+                        res = w.run(fn, {v_pk: ("children",), v_allowed: ALLOWED})
                     except Exception as e:
                         ctx.require(False, f"_apply_keywords_filter: decision-table walk failed: {e}")
                     want = starstar or (star and any(k == "stable" for k in kws)) or (tstar and any(k == "testing" for k in kws)) or any(member)
@@ -121,12 +178,19 @@ def run(ctx):
     if rows_bad:
         kws, ss, s_, ts, mem, res, want = rows_bad[0]
         ctx.fail("R2", ak, f"keyword-table:{len(kws)}kw:**={ss},*={s_},~*={ts}", f"_apply_keywords_filter: package keywords of kinds {list(kws)} (in accept set: {list(mem)}), accept set contains **={ss} *={s_} ~*={ts}: returns {res!r}, expected {want} ({len(rows_bad)} of {n_rows} rows differ)", node=ak.node)
-    prof = [s for s in ak.node.body if isinstance(s, ast.For) and "self.profile.keywords" in A.unparse(s.iter)]
-    ctx.check("R2", ak, bool(prof) and "pkg_keywords += keywords" in A.unparse(prof[0]) and "atom.match(pkg)" in A.unparse(prof[0]), "profile-keywords-added", "matching profile package.keywords entries extend the package's keywords")
+    ctx.check("R2", ak, M.has(ak.node.body, "$pk = pkg.keywords\nfor $atom, $kws in self.profile.keywords:\n    if $atom.match(pkg):\n        $pk += $kws\n$allowed = data.pull_data(pkg)", {"pk": v_pk, "allowed": v_allowed}),
+              "profile-keywords-added", "matching profile package.keywords entries extend the package's keywords")
     mkf = P.func(DM, "domain._make_keywords_filter")
+
+    def resolved(e):
+        """the expression plus, one level deep, what the locals it names were assigned"""
+        out = [e]
+        for nm in {x.id for x in ast.walk(e) if isinstance(x, ast.Name)}:
+            out.extend(v for _, v, _ in A.assignments(mkf.node, nm) if isinstance(v, ast.expr))
+        return out
     for r in A.returns(mkf.node):
         v = A.unparse(r.value)
-        if "_apply_keywords_filter" in v:
+        if any(isinstance(x, ast.Attribute) and x.attr == "_apply_keywords_filter" for e in resolved(r.value) for x in ast.walk(e)):
             ctx.ob("R2", mkf, "slow path routes through _apply_keywords_filter", node=r)
             continue
         guards = [p for p in A.parents(r) if isinstance(p, ast.If)]
@@ -140,28 +204,48 @@ def run(ctx):
                   f"_make_keywords_filter returns `{v[:70]}` without checking for '**', '*' or '~*' in the accepted keywords: the wildcards are compared literally and accept nothing", node=r)
     stab = [n for n in A.body_walk(mkf.node) if isinstance(n, ast.If) and A.unparse(n.test) == "self.unstable_arch not in default_keys"]
     ctx.require(stab, "_make_keywords_filter: stable-system branch not found")
-    inner = [n for n in stab[0].body if isinstance(n, ast.FunctionDef)]
-    ok = bool(inner) and A.unparse(inner[0].body[0]).replace("\n", " ").startswith("if not v:") and "return (r, self.unstable_arch)" in A.unparse(inner[0])
+    ok = M.has(stab[0].body, "def $f($r, $v):\n    if not $v:\n        return ($r, self.unstable_arch)\n    return ($r, $v)\n$data = collapsed_restrict_to_data($_, ($f(*$i) for $i in accept_keywords))")
     ctx.check("R2", mkf, ok, "empty-entry-means-unstable", "on a stable system an accept entry without keywords means ~ARCH")
-    ctx.check("R2", mkf, any("non_incremental_collapsed_restrict_to_data" in A.unparse(s) for s in stab[0].orelse), "unstable-system-plain", "on an unstable system entries are taken as written")
+    ctx.check("R2", mkf, M.has(stab[0].orelse, "$data = non_incremental_collapsed_restrict_to_data($_, accept_keywords)"), "unstable-system-plain", "on an unstable system entries are taken as written")
     ctx.floor("R2", 5)
 
     # ---- R3 license -----------------------------------------------------------------------------
     al = P.func(DM, "domain._apply_license_filter")
-    raw = [(t, v) for t, v, _ in A.assignments(al.node) if A.unparse(t) == "raw_accepted_licenses"]
-    ctx.require(raw, "_apply_license_filter: token stream not found")
-    ctx.check("R3", al, A.unparse(raw[0][1]) == f"{al.params()[1]} + matched_pkg_licenses", "license-stream-order",
-              "the token stream is ACCEPT_LICENSE followed by the matching package.license tokens, unmodified",
-              f"_apply_license_filter builds the token stream as `{A.unparse(raw[0][1])}`: the stream is order-sensitive (-*, @group, repeated tokens), de-duplicating or reordering it changes which licenses are accepted")
-    lp = [n for n in A.body_walk(al.node) if isinstance(n, ast.For) and "dnf_solutions()" in A.unparse(n.iter)]
-    ctx.check("R3", al, bool(lp) and A.unparse(lp[0].iter) == "pkg.license.dnf_solutions()", "per-alternative", "every alternative (DNF solution) of LICENSE is tried")
+    p_master = al.params()[1]
     call = [c for c in A.calls(al.node) if dotted(c.func) == "incremental_expansion_license"]
-    ok = len(call) == 1 and [A.unparse(a) for a in call[0].args[:4]] == ["pkg", A.unparse(lp[0].target) if lp else "", "license_manager.groups", "raw_accepted_licenses"]
+    # the token stream is what is handed to the expansion as 4th argument; the matched tokens are what the package.license loop collects
+    coll = M.one(al.node, "for $atom, $lic in self.pkg_licenses:\n    if $atom.match(pkg):\n        $matched += $lic")
+    v_raw = None
+    stream = None
+    if len(call) == 1 and len(call[0].args) >= 4:
+        stream = call[0].args[3]
+        if isinstance(stream, ast.Name):
+            v_raw = stream.id
+            defs = [v for _, v, st in A.assignments(al.node, v_raw) if st.lineno < call[0].lineno]
+            stream = defs[-1] if defs else None
+    else:
+        m = M.one(al.node, f"$raw = {p_master} + $_") or M.one(al.node, f"$raw = $_({p_master} + $_)")
+        if m:
+            v_raw = m["raw"]
+            stream = A.assignments(al.node, v_raw)[0][1]
+    ctx.require(stream is not None, "_apply_license_filter: token stream not found")
+    ok = coll is not None and M.pat(f"{p_master} + $matched").matches(stream, {"matched": coll["matched"]}) is not None and (v_raw is None or len(A.assignments(al.node, v_raw)) == 1)
+    ctx.check("R3", al, ok, "license-stream-order",
+              "the token stream is ACCEPT_LICENSE followed by the matching package.license tokens, unmodified",
+              f"_apply_license_filter builds the token stream as `{A.unparse(stream)}`: the stream is order-sensitive (-*, @group, repeated tokens), de-duplicating or reordering it changes which licenses are accepted")
+    lp = [n for n in A.body_walk(al.node) if isinstance(n, ast.For) and any(isinstance(x, ast.Attribute) and x.attr == "dnf_solutions" for x in ast.walk(n.iter))]
+    ctx.check("R3", al, bool(lp) and A.unparse(lp[0].iter) == "pkg.license.dnf_solutions()" and isinstance(lp[0].target, ast.Name), "per-alternative", "every alternative (DNF solution) of LICENSE is tried")
+    alt = lp[0].target.id if lp and isinstance(lp[0].target, ast.Name) else None
+    lm = M.one(al.node, "$lm = getattr(pkg.repo, 'licenses', $_)")
+    ok = len(call) == 1 and alt is not None and lm is not None and len(call[0].args) >= 4 and A.contains_node(lp[0], call[0]) \
+        and [A.unparse(a) for a in call[0].args[:4]] == ["pkg", alt, f"{lm['lm']}.groups", A.unparse(call[0].args[3]) if v_raw is None else v_raw]
     ctx.check("R3", al, ok, "expansion-call", "the accepted set is expanded for this package / alternative with the repository's license groups")
-    sup = [n for n in A.body_walk(al.node) if isinstance(n, ast.If) and "issuperset" in A.unparse(n.test)]
-    ctx.check("R3", al, bool(sup) and A.unparse(sup[0].body[0]) == "return True" and A.unparse(al.node.body[-1]) == "return False", "superset-decides", "a package is accepted iff some alternative is a subset of the accepted set")
-    coll = [n for n in A.body_walk(al.node) if isinstance(n, ast.For) and A.unparse(n.iter) == "self.pkg_licenses"]
-    ctx.check("R3", al, bool(coll) and "matched_pkg_licenses += licenses" in A.unparse(coll[0]) and "atom.match(pkg)" in A.unparse(coll[0]), "matching-entries-in-order", "matching package.license entries are appended in file order")
+    dec = M.has(al.node.body, "for $alt in pkg.license.dnf_solutions():\n    $acc = incremental_expansion_license(...)\n    if $acc.issuperset($alt):\n        return True\nreturn False")
+    rets = A.returns(al.node)
+    last = rets[-1] if rets else None
+    tail_ok = last is not None and last in al.node.body and all(_inert(s) for s in al.node.body[al.node.body.index(last) + 1:])
+    ctx.check("R3", al, dec and tail_ok and [A.unparse(r) for r in rets] == ["return True", "return False"], "superset-decides", "a package is accepted iff some alternative is a subset of the accepted set")
+    ctx.check("R3", al, coll is not None and M.has(al.node.body, "$matched = []\nfor $atom, $lic in self.pkg_licenses:\n    ...", coll.env) and len(A.assignments(al.node, coll["matched"])) == 2, "matching-entries-in-order", "matching package.license entries are appended in file order")
     ctx.floor("R3", 5)
 
 
